@@ -422,11 +422,20 @@ def gen_chain(g, filters=0.0, roots=0.0, doc=None, small=False):
                         if kind == 's':
                             strs = [x[1] for x in seen if x[0] == 's']
                             qch = r.choice("'\"")
-                            cand = r.choice(strs).decode('utf-8', 'replace') if strs and r.random() < 0.8 else r.choice(['', 'x', 'a b', '1', 'true', 'null'])
-                            if qch in cand or '\\' in cand:
-                                cand = 'x'
-                            litt = qch + cand + qch
-                            lv = ('s', ord(qch), [ord(ch) for ch in cand])
+                            cand = r.choice(strs).decode('utf-8', 'replace') if strs and r.random() < 0.8 else \
+                                r.choice(['', 'x', 'a b', '1', 'true', 'null', "x'y", 'a"b', 'a\\b', "'", '\\'])
+                            # the body as written: the quote and the backslash escaped; now and then a backslash before an ordinary
+                            # character (a character of its own for the grammar, dropped by the unescaper; not before a line feed)
+                            body = ''
+                            for ch in cand:
+                                if ch == qch or ch == '\\':
+                                    body += '\\' + ch
+                                elif ch != '\n' and r.random() < 0.08:
+                                    body += '\\' + ch
+                                else:
+                                    body += ch
+                            litt = qch + body + qch
+                            lv = ('s', ord(qch), [ord(ch) for ch in body])
                             same = (lambda got, cand=cand: got[0] == 's' and got[1] == cand.encode('utf-8'))
                         elif kind == 'b':
                             bv = r.random() < 0.5
